@@ -130,7 +130,7 @@ AllOps == {"Set", "SetRaw", "Add", "AddRaw", "WriteCas", "Remove", "Delete", "Up
            "GetAndTouchRaw", "SetXattrs", "UpdateXattrs", "RemoveXattrs", "DeleteSubDocPaths",
            "WriteWithXattrs", "WriteTombstoneWithXattrs", "WriteResurrectionWithXattrs",
            "WriteUpdateWithXattrs", "DeleteWithXattrs", "SetWithMeta", "DeleteWithMeta", "WriteSubDoc",
-           "SubdocInsert", "GetSubDocRaw", "PurgeTombstones"}
+           "SubdocInsert", "GetSubDocRaw", "PurgeTombstones", "SwapDDoc"}
 
 ---------------------------------------------------------------------------
 MaxCas == LET all == {store[c][k].cas : c \in Colls, k \in Keys} \cup {clock} IN
